@@ -128,9 +128,9 @@ void Scheduler::SleepPreemptive(std::uint64_t ns) {
   // <= because wakeup called before time adjustment
   if (_time <= ns) {
     auto it = _sleep_list.find(ns);
-    YACLIB_DEBUG(it == _sleep_list.end(), "sleep_list for time that is not passed yet isn't found");
-    if (it->second.Empty()) {
-      _sleep_list.erase(ns);
+    // Another fiber that slept until the same time and also was woken up early could already erase this list
+    if (it != _sleep_list.end() && it->second.Empty()) {
+      _sleep_list.erase(it);
     }
   }
 }
